@@ -246,8 +246,8 @@ def sprite (verbose : Bool) (m : Profile) (s : Sprite) : Array String := Id.run 
           let tofs := resStr (fun (p : Int × Int) => s!"{p.1},{p.2}") v.tileOffsets
           let img := if canRender then resImage verbose (s.celImage floatOps m f l) else "skipped"
           o := o.push s!"tilemap {l} {f} w={v.logicalW} h={v.logicalH} tsize={v.tileset.tileW.toNat},{v.tileset.tileH.toNat} tofs={tofs} pofs={px},{py} tsid={v.tileset.id.toNat} img={img}"
-          let xs := sel (v.logicalW + 3) 12 ++ [2147483647, 2147483648, 4294967295]
-          let ys := sel (v.logicalH + 3) 12 ++ [2147483648, 4294967295]
+          let xs := sel (v.logicalW + 3) 12 ++ [32768, 65535, 65536, 65537, 69999, 70000, 98302, 2147483647, 2147483648, 4294967295]
+          let ys := sel (v.logicalH + 3) 12 ++ [65535, 65536, 69999, 70000, 2147483648, 4294967295]
           let mut cells : Array String := #[]
           for y in ys do
             for x in xs do
